@@ -37,6 +37,7 @@ import os
 from pathlib import Path
 from typing import Any, Dict, List, Optional, Tuple
 
+import gentie
 import vlib
 
 ALGS = ["sha256", "sha512"]
@@ -1424,6 +1425,9 @@ def run(ctx: vlib.Ctx):
         ctx.notes.append(f"{len(disagreements)} model/impl disagreements (smallest: {json.dumps(d0, default=str)[:600]})")
     if timeouts:
         ctx.notes.append(f"{timeouts} calls hit the {TL}s limit under load and were re-run alone")
+    # generated tie: qualified_hashsum is re-translated from the current source and proved equal to
+    # Util/DirHash.v `qualified` (coq/Gen/Equiv_hashsums.v)
+    gentie.report(ctx)
 
 
 # ------------------------------------------------------------------ replay
